@@ -488,6 +488,8 @@ def size_class(spec: Optional[dict]) -> str:
         return "absent"
     if "lit" in spec:
         return "lit"
+    if "rel" in spec:  # old content RELATED to the new one: its canonical prefix / identical
+        return spec["rel"]
     return "big" if spec["size"] >= 100_000 else ("empty" if spec["size"] == 0 else "small")
 
 
@@ -699,10 +701,15 @@ def prepare(case: dict, base_dir: Optional[str] = FAST_TMP) -> Env:
     try:
         t, perm = case["target"], int(case.get("perm", 0o644))
         old_spec, new_spec = case.get("old"), case["new"]
+        if old_spec is not None and "rel" in old_spec and t not in ("bytes", "text", "json", "jsonl"):
+            old_spec = new_spec  # snapshot writers: the related old content is the same state written before
         if t in ("bytes", "text", "json"):
             name = {"bytes": "blob.bin", "text": "note.txt", "json": "export.json"}[t]
             arg, new = materialize_simple(t, new_spec)
-            old = materialize_simple(t, old_spec)[1] if old_spec is not None else None
+            if old_spec is not None and "rel" in old_spec:  # the new content EXTENDS (or equals) what is on disk
+                old = new if old_spec["rel"] == "same" else new[:max(1, int(len(new) * float(old_spec.get("frac", 0.5))))]
+            else:
+                old = materialize_simple(t, old_spec)[1] if old_spec is not None else None
             if old is not None:
                 env.put(name, old, perm)
             env.put("other.bin", b"bystander", 0o640)
@@ -813,7 +820,16 @@ def prepare(case: dict, base_dir: Optional[str] = FAST_TMP) -> Env:
             f_new = _read(os.path.join(env.sandbox, "r_follow", "t1.jsonl"))
             os.environ["CLEMATIS_LOG_DIR"] = env.wdir
             old = None
-            if old_spec is not None:
+            if old_spec is not None and "rel" in old_spec:
+                # the log on disk is CANONICAL (written by an earlier rewrite_jsonl) and the new record list extends
+                # it ("prefix": records appended since the last compaction) or equals it ("same")
+                k = len(recs) if old_spec["rel"] == "same" else max(1, int(len(recs) * float(old_spec.get("frac", 0.5))))
+                os.environ["CLEMATIS_LOG_DIR"] = env.scratch("r_old")
+                L.rewrite_jsonl("t1.jsonl", recs[:k])
+                old = _read(os.path.join(env.sandbox, "r_old", "t1.jsonl"))
+                os.environ["CLEMATIS_LOG_DIR"] = env.wdir
+                env.put("t1.jsonl", old, perm)
+            elif old_spec is not None:
                 old = "".join(json.dumps(r, ensure_ascii=False) + "\n" for r in _records(old_spec)).encode("utf-8")
                 env.put("t1.jsonl", old, perm)
             env.put("t1.jsonl.1", b'{"turn":-1,"rotated":true}\n', 0o644)
@@ -1329,6 +1345,12 @@ def matrix(depth: str) -> List[dict]:
             if ci % 3:  # the directory's files are hours / years old, not from this second
                 case["age"] = 3 * 3600 if ci % 3 == 1 else "1980"
             out.append(case)
+    # the new content EXTENDS the canonical content on disk (records appended since the last compaction) / equals it
+    for t, n in (("jsonl", 3000), ("text", 9000)) if depth == "quick" else (("jsonl", 3000), ("jsonl", BIG), ("text", 9000),
+                                                                           ("bytes", 70_000), ("json", 5000)):
+        for rel in ("prefix", "same"):
+            out.append({"target": t, "old": {"rel": rel, "frac": 0.6}, "new": _g(n, 17, style[t]), "perm": 0o644,
+                        "pathstyle": "str", "age": 3600 if rel == "same" else None})
     return out
 
 
@@ -1355,6 +1377,11 @@ def matrix_anywhere(depth: str) -> List[dict]:
             if (ti + ci) % 3 != 2:
                 case["age"] = (2 * 86400, "1980")[(ti + ci) % 3]
             out.append(case)
+    for t, n in (("jsonl", 6000), ("bytes", 9000)) if depth == "quick" else (("jsonl", 6000), ("jsonl", 70_000), ("bytes", 9000),
+                                                                            ("text", 5000), ("json", 5000), ("snapshot", 900)):
+        for rel in ("prefix", "same"):
+            out.append({"target": t, "old": {"rel": rel, "frac": 0.7}, "new": _g(n, 19, style.get(t, "unicode")),
+                        "perm": 0o644, "pathstyle": "str", "scope": "global"})
     return out
 
 
@@ -1455,7 +1482,9 @@ def _strategies():
     def cases(draw):
         t = draw(st.sampled_from(ALL_TARGETS))
         new = draw(spec_for(t))
-        old = draw(st.one_of(st.none(), spec_for(t), spec_for(t)))
+        old = draw(st.one_of(st.none(), spec_for(t), spec_for(t),
+                             st.fixed_dictionaries({"rel": st.sampled_from(["prefix", "prefix", "same"]),
+                                                    "frac": st.sampled_from([0.01, 0.3, 0.5, 0.9, 0.999])})))
         case = {"target": t, "old": old, "new": new, "perm": draw(st.sampled_from([0o644, 0o600, 0o444, 0o664, 0o640, 0o755])),
                 "pathstyle": draw(st.sampled_from(["str", "path", "rel"]))}
         um = draw(st.sampled_from([None, None, 0o077, 0o027, 0o002]))
@@ -1568,6 +1597,14 @@ def sub_rlimit(rec, seed, shard, nshards, targets=("bytes", "text", "json", "sna
             if not _rlimit_group(case, limits, rec, k, shard, nshards):
                 return
             k += len(limits)
+    # the new content extends the canonical content on disk; the limit falls into the appended part
+    for t, size in (("jsonl", 5000), ("jsonl", 70_000), ("text", 9000), ("bytes", 30_000)):
+        case = {"target": t, "old": {"rel": "prefix", "frac": 0.5}, "new": _g(size, 77, "binary" if t == "bytes" else "ascii"),
+                "perm": 0o644, "pathstyle": "str"}
+        limits = (-1, -300, -(size // 4))
+        if not _rlimit_group(case, limits, rec, k, shard, nshards):
+            return
+        k += len(limits)
 
 
 # ------------------------------------------------------------------------------------------------ sub-check: kernel
